@@ -70,7 +70,7 @@ var ingressAnnotations = []annChoice{
 	{"redirect-to", []string{"https://elsewhere.local"}},
 	{"waf", []string{"modsecurity"}},
 	{"oauth", []string{"oauth2_proxy"}},
-	{"auth-url", []string{"http://10.9.9.9:8000/auth", "svc://a/s2:80", "svc://missing:80", "http://authhost.local/x", "bad::url"}},
+	{"auth-url", []string{"http://10.9.9.9:8000/auth", "http://10.9.9.8:8000/auth", "http://10.9.9.7:8001/check", "svc://a/s2:80", "svc://missing:80", "http://authhost.local/x", "bad::url", "https://10.9.9.6/auth", "ftp://10.9.9.9/x", "http://nohost.local/x", "svc://s2", "svc://a/s2:81"}},
 	{"auth-external-placement", []string{"frontend", "backend"}},
 	{"session-cookie-preserve", []string{"true"}},
 	{"session-cookie-value-strategy", []string{"pod-uid", "server-name"}},
@@ -134,6 +134,11 @@ type GenOptions struct {
 	// excluded keys
 	ExcludeIngressKeys []string
 	ExcludeGlobalKeys  []string
+	// ForceIngressKeys / ForceGlobalKeys are always enabled (focus profiles)
+	ForceIngressKeys []string
+	ForceGlobalKeys  []string
+	// AnnChance: an enabled key is set on a generated ingress with probability 1/AnnChance (default 4)
+	AnnChance int
 	// how many of the allowed keys are enabled for one run (swarm)
 	KeysPerRun   int
 	MaxIngresses int
@@ -473,8 +478,12 @@ func (g *gen) genAnnotations(cur map[string]string) map[string]string {
 		}
 		ann[k] = v
 	}
+	den := g.opt.AnnChance
+	if den == 0 {
+		den = 4
+	}
 	for _, k := range g.ingKeys {
-		if g.chance(1, 4) {
+		if g.chance(1, den) {
 			ann[annPrefix+k.Key] = pickStr(g, k.Values)
 		}
 	}
@@ -609,12 +618,18 @@ func GenerateRun(seed uint64, opt GenOptions) (*World, []Op) {
 	if g.opt.Avoid["no_header_match"] {
 		opt.ExcludeIngressKeys = append(append([]string{}, opt.ExcludeIngressKeys...), "http-header-match", "http-header-match-regex")
 	}
-	g.ingKeys = g.subset(filterKeys(ingressAnnotations, opt.IngressKeys, opt.ExcludeIngressKeys), n)
+	g.ingKeys = g.subset(filterKeys(ingressAnnotations, opt.IngressKeys, append(append([]string{}, opt.ExcludeIngressKeys...), opt.ForceIngressKeys...)), n)
+	if len(opt.ForceIngressKeys) > 0 {
+		g.ingKeys = append(g.ingKeys, filterKeys(ingressAnnotations, opt.ForceIngressKeys, opt.ExcludeIngressKeys)...)
+	}
 	g.svcKeys = g.subset(filterKeys(serviceAnnotations, opt.ServiceKeys, nil), 2)
 	if g.opt.Avoid["no_strict_host"] {
 		opt.ExcludeGlobalKeys = append(append([]string{}, opt.ExcludeGlobalKeys...), "strict-host")
 	}
-	g.glbKeys = g.subset(filterKeys(globalKeys, opt.GlobalKeys, opt.ExcludeGlobalKeys), 4)
+	g.glbKeys = g.subset(filterKeys(globalKeys, opt.GlobalKeys, append(append([]string{}, opt.ExcludeGlobalKeys...), opt.ForceGlobalKeys...)), 4)
+	if len(opt.ForceGlobalKeys) > 0 {
+		g.glbKeys = append(g.glbKeys, filterKeys(globalKeys, opt.ForceGlobalKeys, opt.ExcludeGlobalKeys)...)
+	}
 
 	g.world = &World{DNS: map[string][]string{"authhost.local": {"10.7.7.7"}, "ext.local": {"10.6.6.6", "10.6.6.7"}}}
 	// ---- initial world
@@ -890,8 +905,8 @@ func (g *gen) genOp(name string) {
 			cur.DeletionTimestamp = &t
 			g.emit(cur, "terminating")
 		} else {
-			g.emitDelete(KPod, objKey(cur), "terminated")
-			// the endpoints controller drops the address of a deleted pod
+			// the endpoints controller drops the address of a terminating pod before the pod object goes away
+			defer g.emitDelete(KPod, objKey(cur), "terminated")
 			svcName := cur.Labels["app"]
 			epKey := cur.Namespace + "/" + svcName
 			if ep, ok := g.objs[KEndpoints][epKey].(*api.Endpoints); ok {
